@@ -5,6 +5,7 @@ import (
 	"math"
 	"math/big"
 	"regexp"
+	"strings"
 	"testing"
 
 	"github.com/amzn/ion-go/ion"
@@ -113,6 +114,24 @@ func runC14(c C14Case) string {
 		}
 		msg = valueEq(got, want, m)
 	case "mul":
+		if r := ae + be; r > math.MaxInt32 || r < -math.MaxInt32 {
+			refused := false
+			var got *ion.Decimal
+			func() {
+				defer func() {
+					if recover() != nil {
+						refused = true
+					}
+				}()
+				got = a.Mul(b)
+			}()
+			if !refused {
+				gc, ge := got.CoEx()
+				msg = fmt.Sprintf("mul of %vd%d and %vd%d: the exponent %d is out of range, yet the call returned %vd%d", ac, ae, bc, be, r, gc, ge)
+			}
+			cls += ".out-of-range"
+			break
+		}
 		msg = valueEq(a.Mul(b), new(big.Int).Mul(ac, bc), ae+be)
 	case "neg":
 		msg = valueEq(a.Neg(), new(big.Int).Neg(ac), ae)
@@ -122,12 +141,6 @@ func runC14(c C14Case) string {
 		r := ae + int64(c.N)
 		if c.Op == "shr" {
 			r = ae - int64(c.N)
-		}
-		if r == math.MaxInt32+1 {
-			// ion-go keeps the negated exponent in an int32, so 2^31 exists inside
-			// but not through CoEx: left unjudged (DESIGN 13.3)
-			st.Discard("shift to exponent 2^31")
-			return ""
 		}
 		if r > math.MaxInt32 || r < -math.MaxInt32 {
 			// the result has no representation (ion-go's exponents span -(2^31-1) .. 2^31-1): the call must refuse (it panics with
@@ -229,7 +242,7 @@ func runC14(c C14Case) string {
 			}
 		}
 	}
-	if msg == "" && (c.Op == "add" || c.Op == "sub" || c.Op == "mul") {
+	if msg == "" && (c.Op == "add" || c.Op == "sub" || c.Op == "mul") && !strings.HasSuffix(cls, ".out-of-range") {
 		var r1, r2 *ion.Decimal
 		switch c.Op {
 		case "add":
@@ -302,6 +315,12 @@ func genC14(t *rapid.T) C14Case {
 	}
 	switch c.Op {
 	case "mul":
+		if gen.Chance(t, 6) {
+			// exponents whose sum lands on, or just beyond, the ends of the range
+			a.Exp = gen.Pick(t, []int64{math.MaxInt32, math.MaxInt32 - 3, -math.MaxInt32, -math.MaxInt32 + 3})
+			b.Exp = gen.Pick(t, []int64{0, 1, 2, 3, 4, -1, -2, -3, -4})
+			break
+		}
 		if s := a.Exp + b.Exp; s > math.MaxInt32 || s < -math.MaxInt32 {
 			a.Exp /= 2
 			b.Exp = clampExp(a.Exp + delta)
